@@ -10,7 +10,7 @@ You have your own scratch git worktree of the library at {wt} (sources under {wt
 To run code against your worktree use:  cd {wt} && PYTHONPATH={wt}/src /venv/bin/python -W ignore your_script.py
 To run the existing test suite against your worktree use:
   cd {wt} && PYTHONPATH={wt}/src /venv/bin/python -m pytest -q -p no:cacheprovider -x -n 6 --timeout=900 src/grid/tests
-(the full suite takes several minutes; while developing, first run only the test files related to what you changed, then the full suite once per finished change. 598 tests pass and 1 is skipped on the unchanged tree.) There is no network.
+(the full suite takes several minutes; while developing, first run only the test files related to what you changed, then the full suite once per finished change. 598 tests pass and 1 is skipped on the unchanged tree.) There is no network. Do NOT use `git stash` (the stash is shared by all worktrees of the repository and other people work in sibling worktrees): to switch between the clean tree and your change use `git diff > seeded/X.diff; git checkout -- .; git apply seeded/X.diff`.
 
 THE PROPERTY (id {pid}): {p['title']}
 Statement: {p['statement']}
